@@ -7,8 +7,8 @@ KEEP_PREFIX = 0
 SIZES = {"quick": 600, "thorough": 12000}
 RULE = ("op histories over 1-6 resources: entries (default chain with isolation / hotspot rules, or custom chains from a behaviour "
         "table: node/no-op/panicking prepare slots, nil/pass/block/panicking rule slots, stat.DefaultSlot and recording slots), "
-        "inbound/outbound, batch in {0,1,2,3,small,2^32-1}, 0-3 args incl. unhashable, nested and interleaved; TraceError (nil and "
-        "non-nil), Exit with/without error, double exits, late Exit(WithError)/TraceError on exited ids after other entries reused "
+        "inbound/outbound, resource type varying between entries of one resource (api.WithResourceType), batch in {0,1,2,3,small,2^32-1}, 0-3 args incl. unhashable, nested and interleaved; TraceError (nil and "
+        "non-nil), Exit with/without error, double exits, two goroutines exiting one entry simultaneously (racexit, forced to overlap by a rendezvous stat slot), late Exit(WithError)/TraceError on exited ids after other entries reused "
         "the pooled context, ops on blocked ids; multi-goroutine soaks (2-8 goroutines x 10-120 Entry/Trace/Exit rounds, GOMAXPROCS 8) whose final account is compared; time steps from {0,1,499,500,501,999,1000,1001,9999,10000,10001,>array}; reads of "
         "every counter (1 s and 10 s views), gauge, peak concurrency, min RT, ctx.Err/Args of live entries, recording-slot logs. "
         "non-trivial = at least one pass, one block, one completion, one late op on an exited id and one non-zero read; distinct by "
@@ -17,7 +17,8 @@ RULE = ("op histories over 1-6 resources: entries (default chain with isolation 
 EVS = ["pass", "block", "complete", "error", "rt"]
 PRES = ["N", "N", "N", "N", "oN", "No", "xN", "Nx", "-", "o", "x", "NN"]
 RULES = ["-", "p", "n", "pn", "np", "b", "pb", "nb", "b", "x", "px", "bx", "xb", "ppb"]
-STATS = ["S", "S", "S0", "S01", "0", "-", "S1", "01"]
+STATS = ["S", "S", "S0", "S01", "0", "-", "S1", "01", "wS", "wS0", "Sw", "wS01"]
+RTYPES = ["common", "web", "rpc", "api_gateway", "db_sql", "cache", "mq"]
 STEPS = [0, 0, 1, 1, 2, 7, 499, 500, 501, 999, 1000, 1001, 1499, 9499, 9999, 10000, 10001, 10500, 20000, 35001]
 ERRS = ["e1", "e2", "boom", "late", "nil"]
 
@@ -64,6 +65,7 @@ def gen_case(rng, cid):
             hot.add(r)
     live, done, blocked = [], [], []
     used = []
+    chains = {}
     nid = 0
     late = []         # (countdown, op) scheduled late ops on exited ids
     nops = rng.randint(15, 90)
@@ -86,7 +88,10 @@ def gen_case(rng, cid):
             batch = 4294967295 if big else rng.choice([1, 1, 1, 1, 2, 3, 0, rng.randint(1, 100)])
             chain = gen_chain(rng, panicky)
             args = gen_args(rng, res in hot, panicky)
-            ops.append(f"entry {nid} {res} {rng.choice(['in', 'out'])} {batch} {chain} {len(args)}" + "".join(" " + a for a in args))
+            # the resource type varies between entries of one resource (typed while untyped ones are in flight and vice versa)
+            rty = f" type={rng.choice(RTYPES)}" if rng.random() < 0.45 else ""
+            ops.append(f"entry {nid} {res} {rng.choice(['in', 'out'])}{rty} {batch} {chain} {len(args)}" + "".join(" " + a for a in args))
+            chains[nid] = chain
             if res not in used:
                 used.append(res)
             live.append(nid)   # may in fact be blocked: ops on blocked ids are part of the domain
@@ -100,7 +105,9 @@ def gen_case(rng, cid):
                 # exits out of order: newest, oldest or random
                 k = rng.choice([len(live) - 1, 0, rng.randrange(len(live))])
                 i = live.pop(k)
-                ops.append(f"exit {i}" + (f" {rng.choice(ERRS)}" if rng.random() < 0.35 else ""))
+                # two goroutines exiting the same entry at once (always when its chain has the rendezvous slot)
+                verb = "racexit" if ("w" in chains.get(i, "").split("/")[-1] or rng.random() < 0.05) else "exit"
+                ops.append(f"{verb} {i}" + (f" {rng.choice(ERRS)}" if rng.random() < 0.35 else ""))
                 done.append(i)
                 # pool-reuse stress: late calls on the exited entry after the next entries took its context
                 if rng.random() < 0.6:
@@ -165,7 +172,7 @@ def densify(ops, rng):
             if t[2] not in keys:
                 keys.append(t[2])
             ids.append(t[1])
-        if rng.random() < 0.5 and t[0] in ("entry", "exit", "trace", "clock"):
+        if rng.random() < 0.5 and t[0] in ("entry", "exit", "racexit", "trace", "clock"):
             for k in keys:
                 for g in rng.sample(["sum pass", "sum block", "sum complete", "sum error", "sum rt", "sum10 pass", "sum10 complete",
                                      "conc", "maxconc", "minrt"], 4):
@@ -187,14 +194,14 @@ def nontrivial(case, impl):
         if t[0] == "entry":
             npass += r == "pass"
             nblock += r == "block"
-            kinds.append("E" + t[5] + r[:1])
-        elif t[0] == "exit":
+            kinds.append("E" + ("t" if t[4].startswith("type=") else "") + t[5 + t[4].startswith("type=")] + r[:1])
+        elif t[0] in ("exit", "racexit"):
             if t[1] in exited:
                 late += 1
             else:
                 compl += 1
             exited.add(t[1])
-            kinds.append("X" + str(len(t)))
+            kinds.append(t[0][0].upper() + str(len(t)))
         elif t[0] == "trace":
             late += t[1] in exited
             kinds.append("T")
